@@ -49,10 +49,23 @@ def strategy_case(draw, tier):
             "m": st.integers(2, 4),
             "r": st.integers(0, 6),
             "default_repeat": st.booleans(),
+            "batch": st.sampled_from([0, 0, 1, 2, 3, 5, 8]),
         }),
                  min_size=2,
                  max_size=6))
-    return {"desc": desc, "ops": ops, "reads": reads}
+    pair = draw(
+        st.one_of(
+            st.none(),
+            st.fixed_dictionaries({
+                "ifaces": st.tuples(st.integers(0, 9),
+                                    st.integers(0, 9)).map(list),
+                "splits": st.tuples(st.integers(0, 2),
+                                    st.integers(0, 2)).map(list),
+                "fp": st.integers(1, 3),
+                "pattern": st.lists(st.integers(0, 1), min_size=6,
+                                    max_size=60),
+            })))
+    return {"desc": desc, "ops": ops, "reads": reads, "pair": pair}
 
 
 def run_case(case, ctx):
@@ -75,9 +88,12 @@ def run_case(case, ctx):
                 opts["repeat"] = True
             if dsops.iface_accepts(iface, "file_parallelism"):
                 opts["file_parallelism"] = fp
+            if iface == "tfdata" and r.get("batch"):
+                opts["batch_size"] = r["batch"]
             want_len = r["m"] * n + r["r"]
             what = (f"{iface} split={split} N={n} S={s} shuffle={shuffle} "
-                    f"file_parallelism={fp} fmt={desc['fmt']}")
+                    f"file_parallelism={fp} fmt={desc['fmt']} "
+                    f"batch_size={opts.get('batch_size', '-')}")
             ok, prefix = oracles.guarded(
                 ctx, "endless", ("iteration-raised", iface), what,
                 lambda: dsops.read_prefix(b.h.ds, split, iface, want_len,
@@ -101,6 +117,8 @@ def run_case(case, ctx):
                 one = [
                     dsops.ex_id_of(e) for e in dsops.read_all(
                         b.h.ds, split, iface, **{
+                            **opts, "repeat": False, "batch_size": 0
+                        } if iface == "tfdata" else {
                             **opts, "repeat": False
                         })
                 ]
@@ -130,6 +148,67 @@ def run_case(case, ctx):
                     min(s, 8), "0" if shuffle == 0 else
                     ("<N" if shuffle < n else ">=N"), r["m"], desc["fmt"]
                 ])
+        # ---- two repeating iterators alive at once, advanced alternately --
+        # (not for tfrec: its Python readers hold a tf.device scope inside the
+        # generator, which TensorFlow only allows to be nested, not
+        # interleaved -- outside what the property quantifies over)
+        pair = case.get("pair")
+        if pair is not None and desc["fmt"] != "tfrec":
+            streams = []
+            for k in (0, 1):
+                # prefer the native reader: it keeps per-iterator global state
+                iface = iter_common.resolve_iface(
+                    pair["ifaces"][k], desc,
+                    only=("rust", "sync", "concurrent", "async"))
+                split = b.split_for(pair["splits"][k])
+                if b.n_examples(split) > 60:
+                    streams = []
+                    break
+                opts = {"shuffle": 0, "repeat": True}
+                if dsops.iface_accepts(iface, "file_parallelism"):
+                    opts["file_parallelism"] = pair["fp"]
+                one = [
+                    dsops.ex_id_of(e) for e in dsops.read_all(
+                        b.h.ds, split, iface, **{**opts, "repeat": False})
+                ]
+                streams.append({
+                    "iface": iface, "split": split, "one": one, "pos": 0,
+                    "it": dsops.open_iter(b.h.ds, split, iface, **opts)
+                })
+            try:
+                if streams:
+                    what = (f"two live repeating iterators "
+                            f"{[(x['iface'], x['split']) for x in streams]} "
+                            f"pattern {pair['pattern']}")
+                    rounds = pair["pattern"] * 4
+                    for which in rounds:
+                        st_ = streams[which]
+                        ok, ex = oracles.guarded(
+                            ctx, "endless", ("interleaved-iteration-raised",
+                                             st_["iface"]), what,
+                            lambda: next(st_["it"]))
+                        if not ok:
+                            break
+                        want = st_["one"][st_["pos"] % len(st_["one"])]
+                        if dsops.ex_id_of(ex) != want:
+                            ctx.fail(
+                                "periodic", ("interleaved-not-periodic",
+                                             st_["iface"]),
+                                f"{what}: stream {which} ({st_['iface']}, "
+                                f"{st_['split']}) element {st_['pos']} is "
+                                f"{dsops.ex_id_of(ex)}, expected {want}")
+                        st_["pos"] += 1
+                    ctx.label("pair")
+                    ctx.nontrivial([
+                        "pair", [x["iface"] for x in streams],
+                        [min(len(x["one"]), 9) for x in streams],
+                        len(pair["pattern"])
+                    ])
+            finally:
+                for st_ in reversed(streams):
+                    close = getattr(st_["it"], "close", None)
+                    if close:
+                        close()
     finally:
         b.cleanup()
 
